@@ -200,26 +200,39 @@ func execRow(op hx.Zs) (out []hx.Zs) {
 		fd.UpdateDataAny(false, true, clo.FromTree(data, reflect.PointerTo(f.Data.Type)).Interface(), nil, nil)
 	}
 	s, e := anyPtr(sel, f.Sel), anyPtr(el, f.El)
+	// "no selector" / "no elements" is passed as an untyped nil or, every other row, as a nil pointer of
+	// the function's selectors / elements type (what a caller with a conditionally assigned variable
+	// hands over): both mean absent, the model has one plain shape for them
+	typedNilRows++
+	ns, ne := any(nil), any(nil)
+	if typedNilRows%2 == 0 {
+		if f.Sel != nil {
+			ns = reflect.Zero(reflect.PointerTo(f.Sel.Type)).Interface()
+		}
+		if f.El != nil {
+			ne = reflect.Zero(reflect.PointerTo(f.El.Type)).Interface()
+		}
+	}
 	var cmd model.CmdType
 	switch shape {
 	case 0:
-		cmd = fd.ReadCmdType(nil, nil)
+		cmd = fd.ReadCmdType(ns, ne)
 	case 1:
-		cmd = fd.ReadCmdType(s, nil)
+		cmd = fd.ReadCmdType(s, ne)
 	case 2:
-		cmd = fd.ReadCmdType(nil, e)
+		cmd = fd.ReadCmdType(ns, e)
 	case 3:
 		cmd = fd.ReplyCmdType(false)
 	case 4:
-		cmd = fd.NotifyOrWriteCmdType(nil, nil, false, nil)
+		cmd = fd.NotifyOrWriteCmdType(ns, ns, false, ne)
 	case 5:
-		cmd = fd.NotifyOrWriteCmdType(nil, nil, true, nil)
+		cmd = fd.NotifyOrWriteCmdType(ns, ns, true, ne)
 	case 6:
-		cmd = fd.NotifyOrWriteCmdType(nil, s, false, nil)
+		cmd = fd.NotifyOrWriteCmdType(ns, s, false, ne)
 	case 7:
-		cmd = fd.NotifyOrWriteCmdType(s, nil, false, nil)
+		cmd = fd.NotifyOrWriteCmdType(s, ns, false, ne)
 	case 8:
-		cmd = fd.NotifyOrWriteCmdType(nil, nil, false, e)
+		cmd = fd.NotifyOrWriteCmdType(ns, ns, false, e)
 	case 9:
 		cmd = fd.ReadCmdType(s, e)
 	case 10:
@@ -662,7 +675,10 @@ func emitCorpus(dir string) {
 	}
 }
 
+var typedNilRows int
+
 func main() {
+	c18lib.Lenient = true
 	clo = c18lib.NewClosure()
 	var err error
 	// the repository root is only needed for the AST-derived parts of the factory table
